@@ -92,6 +92,19 @@ impl Sim {
     pub fn touch(&mut self, name: &str) {
         let t = self.model.tick();
         let tag = vcore::refbuild::tag_hash(&[name, "src"], &[t]);
+        // Header sources live behind a symbolic link (include/foo.h ->
+        // foo.h.target): every edit goes through the link to the real file,
+        // whose mtime is the one that matters.
+        if name.ends_with(".h") && std::fs::symlink_metadata(name).is_err() {
+            let p = std::path::Path::new(name);
+            if let Some(parent) = p.parent() {
+                if !parent.as_os_str().is_empty() {
+                    std::fs::create_dir_all(parent).expect("mkdir");
+                }
+            }
+            let base = p.file_name().map(|b| b.to_string_lossy().into_owned()).unwrap_or_default();
+            std::os::unix::fs::symlink(format!("{}.target", base), p).expect("symlink");
+        }
         exec::write_file(name, tag.to_string().as_bytes(), t);
         self.model.files.insert(name.to_string(), FileInfo { mtime: t, tag });
     }
@@ -277,9 +290,12 @@ impl CommandModel for Sim {
                 }
                 if depfile_ok {
                     // n2 turns a malformed depfile into a failure of the step;
-                    // otherwise the step is recorded.
+                    // otherwise the step is recorded - with an empty list when
+                    // the command wrote no depfile at all.
                     let gproj = self.projects[g].clone();
-                    self.model.record_success(&gproj, step, reported.as_deref());
+                    let no_depfile = s.depfile.is_some() && self.raw_depfile.get(&key).map(|r| r.as_str()) == Some("<none>");
+                    let remembered: Option<Vec<String>> = if no_depfile { Some(Vec::new()) } else { reported.clone() };
+                    self.model.record_success(&gproj, step, remembered.as_deref());
                 }
                 Term::Success
             }
